@@ -19,7 +19,7 @@ func init() {
 		Level: "other",
 		Explanation: "Decided (structural necessary conditions of 'exports parse back'): (R14.1) inside package rag an io.Writer handed to an export function only ever reaches encoding/json or encoding/csv encoders (or another export function held to the same rule): no hand-written serialisation of chunk data; (R14.2) every constant column name produced by collectCSVColumns has a value case in getColumnValue and is known to isStandardColumn, and metadata columns carry the meta_ prefix both where they are produced and where they are read; (R14.3) the column set is sorted before use (map-order rule of C03 on the export code); (R14.4) ChunkCollection.Filter is a pure forward selection that calls the predicate exactly once per chunk, and every FilterBy*/Search delegates to it; (R14.5) batch windows tile the input: the loop advances by the batch size and each window is chunks[i:min(i+size,len)]; one record is produced per chunk with the loop index as position; (R14.6) Exporter methods keep no state between calls. " +
 			"Not decided: field-by-field equality after re-parsing, number formatting, the vector-database record layouts.",
-		Rules: []func(*eng.Ctx){loopVarRule("R14.LV", "rag"), ruleWriterDiscipline, ruleColumnAgreement, ruleExportMapOrder, ruleCollectionFilter, ruleBatchPartition, ruleExporterStateless, ruleCSVNoCRLF, roleRule("R14.R", "rag"), ruleExportNoEmptyShortcut, ruleExportFieldCopy, ruleShortLoop, rulePageRangeOverlap, ruleExportTruncates, ruleSearchNormalisesBoth, ruleBatchDataOwn},
+		Rules: []func(*eng.Ctx){ruleNilListMeansAll, loopVarRule("R14.LV", "rag"), ruleWriterDiscipline, ruleColumnAgreement, ruleExportMapOrder, ruleCollectionFilter, ruleBatchPartition, ruleExporterStateless, ruleCSVNoCRLF, roleRule("R14.R", "rag"), ruleExportNoEmptyShortcut, ruleExportFieldCopy, ruleShortLoop, rulePageRangeOverlap, ruleExportTruncates, ruleSearchNormalisesBoth, ruleBatchDataOwn},
 	})
 }
 
@@ -159,6 +159,33 @@ func ruleColumnAgreement(c *eng.Ctx) {
 		c.Check(hasCase, R, "rag column \""+n+"\"#value", coll.Pos(), "getColumnValue has a case", "column "+n+" is emitted in the header but getColumnValue has no case for it: the column is always empty")
 		if !isEmb {
 			c.Check(stdKeys[n], R, "rag column \""+n+"\"#standard", coll.Pos(), "known to isStandardColumn", "column "+n+" is a fixed column but isStandardColumn does not know it: a metadata key of the same name is emitted twice")
+		}
+	}
+	// the other direction: a key that isStandardColumn claims gets no meta_ column, so it must be one of the fixed
+	// columns, or the value is in neither place
+	var stdNames []string
+	for k := range stdKeys {
+		stdNames = append(stdNames, k)
+	}
+	sort.Strings(stdNames)
+	metaKeys := map[string]bool{}
+	if mm := c.P.Func("rag.chunkMetadataToMap"); mm != nil {
+		for _, h := range eng.Cluster(mm, 1) {
+			eng.Instrs(h, true, func(in ssa.Instruction) {
+				if mu, ok := in.(*ssa.MapUpdate); ok {
+					if s, ok := eng.ConstString(mu.Key); ok {
+						metaKeys[s] = true
+					}
+				}
+			})
+		}
+	}
+	if len(produced) > 0 && len(metaKeys) > 0 {
+		for _, k := range stdNames {
+			if !metaKeys[k] {
+				continue // not a key the chunk metadata can have: nothing to lose
+			}
+			c.Check(produced[k], R, "rag standard key \""+k+"\"#column", std.Pos(), "has a fixed column", "isStandardColumn claims the key "+k+" so no meta_"+k+" column is made for it, but the fixed header of collectCSVColumns has no "+k+" column: the value is in no column of the CSV/TSV output")
 		}
 	}
 	// prefix agreement
